@@ -144,3 +144,82 @@ func init() {
 		Outside: []string{"more boundaries / observations than the bound", "the parser's handling of the buckets clause", "the Prometheus text rendering of the histogram"},
 	})
 }
+
+func init() {
+	storeJob := func(tier string) []JobDef {
+		small := 1
+		if tier == "thorough" {
+			small = 0
+		}
+		return []JobDef{{Name: fmt.Sprintf("HarnessC06Add-small%d", small), Pkg: metricsPkg, Dir: "internal/metrics",
+			Harness: []string{"metrics/c06.go"}, Entry: "HarnessC06Add", Params: p("small", small),
+			Bound: "store with two metrics, each with name in {a,b}, program in {p,q}, kind in {Counter,Gauge}, type in {Int,Float}, source in {s1,s2}, 1..2 keys, 0..2 label values with symbolic values and expiry marks (valid: one kind per name, one metric per name and program); one Add of an arbitrary metric of program p from the same alphabet; quick tier (small=1): first metric of program p, second of program q with one key and source s1, new metric named a (names are symmetric)"}}
+	}
+	as := append([]string{
+		"the pre-state is constructed directly (NewMetric + GetDatum + insertion into Store.Metrics) under the stated representation invariant; reflect.DeepEqual on []string is an engine model",
+		"glog is a no-op; pkg/errors.Errorf is an opaque error",
+	}, baseAssumptions...)
+	register(&CheckDef{ID: "C14", Level: "model_checking", Jobs: storeJob, Assumptions: as, Only: []string{"C14."},
+		Outside: []string{"the loader part (CompileAndRun) is covered by separate jobs when registered", "more than two pre-existing metrics"}})
+	register(&CheckDef{ID: "C06", Level: "model_checking", Jobs: storeJob, Assumptions: as, Only: []string{"C06."},
+		Outside: []string{"that each program runs in its own VM with its own line channel (by construction in CompileAndRun, not a solver question)", "more than two pre-existing metrics", "the prog label in the Prometheus exporter (C13)"}})
+}
+
+const exporterPkg = "github.com/google/mtail/internal/exporter"
+
+func exporterJob(entry string, nm, symlabels int, bound string) JobDef {
+	return JobDef{Name: fmt.Sprintf("%s-m%d-s%d", entry, nm, symlabels), Pkg: exporterPkg, Dir: "internal/exporter",
+		Harness: []string{"exporter/c12.go"}, EngineOnly: []string{"exporter/prom_engine.go"}, NativeOnly: []string{"exporter/prom_native.go"},
+		Entry: entry, Params: p("nmetrics", nm, "symlabels", symlabels),
+		Substs: []Subst{
+			{File: "internal/exporter/prometheus.go", Old: "prometheus.NewConstMetric(", New: "verifNewConstMetric("},
+			{File: "internal/exporter/prometheus.go", Old: "prometheus.NewConstHistogram(", New: "verifNewConstHistogram("},
+		},
+		Bound: bound}
+}
+
+func init() {
+	storeBound := "store of %d metric(s), each of any kind/type (counter int/float, gauge, timer, text, histogram), 0..1 keys, 0..2 label sets with symbolic values, timestamps and (Prometheus job) 0..1-byte label values"
+	as := append([]string{
+		"prometheus.NewDesc/NewConstMetric/NewConstHistogram/NewMetricWithTimestamp are recording stubs that may fail at any call (a superset of the client library's refusals: invalid name, duplicate label name, non-UTF-8 value); natively replayed by rewriting the constructor call sites to fault-injecting wrappers around the real constructors",
+		"the push connection and the HTTP response writer are harness types whose writes fail / cancel the request at solver-chosen calls; EmitLabelSets runs in an interpreted goroutine under the deterministic scheduler; lock and goroutine state are read from the engine's lock table / goroutine table",
+		"Store.Range iterates metrics in insertion order (Go map order is not explored)",
+	}, baseAssumptions...)
+	register(&CheckDef{ID: "C12", Level: "model_checking", Only: []string{"C12."}, Assumptions: as,
+		Jobs: func(tier string) []JobDef {
+			nm := 1
+			if tier == "thorough" {
+				nm = 2
+			}
+			b := fmt.Sprintf(storeBound, nm)
+			return []JobDef{
+				exporterJob("HarnessC12Prom", nm, 0, b+"; every subset of constructor calls refused"),
+				exporterJob("HarnessC12Socket", nm, 0, b+"; graphite/statsd/collectd push formatters; the connection fails at any write"),
+				exporterJob("HarnessC12HTTP", nm, 0, b+"; varz and graphite handlers; request cancelled before the export or at any write"),
+			}
+		},
+		Outside: []string{"the real net.Conn / HTTP server", "JSON export (no per-metric lock is taken there)", "more metrics than the bound"}})
+	register(&CheckDef{ID: "C13", Level: "model_checking", Only: []string{"C13."}, Assumptions: as,
+		Jobs: func(tier string) []JobDef {
+			if tier == "thorough" {
+				return []JobDef{exporterJob("HarnessC12Prom", 2, 1, fmt.Sprintf(storeBound, 2)), exporterJob("HarnessC12Prom", 1, 1, fmt.Sprintf(storeBound, 1))}
+			}
+			return []JobDef{exporterJob("HarnessC12Prom", 1, 1, fmt.Sprintf(storeBound, 1))}
+		},
+		Outside: []string{"the expfmt text rendering and the registry's consistency checks (claim is to the client-library boundary: the arguments of the constructor calls)", "timestamps are compared at the client library's millisecond resolution", "stores in which two exported series share a name and label set (excluded by the property)"}})
+}
+
+func init() {
+	register(&CheckDef{ID: "C22", Level: "model_checking", Only: []string{"C22."},
+		Jobs: func(tier string) []JobDef {
+			j := exporterJob("HarnessC22", 1, 0, "one metric of each kind/type (counter int/float, gauge float, timer, histogram with two observations, text) with two label sets whose values, timestamps, observations and (single lower-case letter) label values are symbolic; formatters graphite, statsd, collectd, varz")
+			j.Harness = []string{"exporter/c12.go", "exporter/c22.go"}
+			return []JobDef{j}
+		},
+		Assumptions: append([]string{
+			"fmt.Sprintf/Fprintf are engine models: %s/%v/%d/%g of symbolic numbers become opaque formatted pieces that are equal iff their arguments are (injectivity of strconv's shortest formatting; NaNs equal); strings.ReplaceAll/Join and sort.Strings are engine models",
+			"metamorphic oracle: the record for label set 2 of a two-label-set metric must equal the record of a metric holding only that label set; well-formedness of a single record is what the repository's golden tests pin",
+			"flag values (graphite/statsd/collectd prefixes) are their defaults",
+		}, baseAssumptions...),
+		Outside: []string{"JSON export and Store.MarshalJSON round trip (encoding/json reflection is not executed symbolically)", "push transport", "label values containing separator characters (excluded by the property)"}})
+}
